@@ -7,6 +7,8 @@ import Driver.Util
               (head: ints `,`-separated; valid/filename: hex; the six vectors: hex tokens `,`-separated)
   morph <shape n,..|-> <vals u32,..|-> <fnum>
   annot <origIds 0|1> <fill 0|1> <has5 0|1> <labels int,..|-> <rows r:g:b:t:a;..|-> <names hex;..|->
+  annot2 <fill 0|1> <has5 0|1> <labels> <rows> <names> <rgb r:g:b;..|-> <fill2 0|1>
+        history: write_annot; read_annot; ctab[:, :3] = rgb; write_annot(fill_ctab=fill2); read_annot
   mgh   <shape> <dtype> <data u32,..|-> <affDelta u32,u32,u32> <ras hex (48 bytes)> <setZ `_`|u32,..|-> <ftrSets i:v;..|->
   mghload <file hex>                   MGHHeader.from_fileobj + data_from_fileobj on arbitrary file bytes
   zoom  <shape> <zs u32,..|->          bare MGHHeader: set_data_shape(shape); set_zooms(zs)
@@ -90,6 +92,13 @@ def parseRow? (s : String) : Option Row :=
 def parseRows? (s : String) : Option (List Row) :=
   if s = "-" then some [] else (s.splitOn ";").mapM parseRow?
 
+def parseRgb? (s : String) : Option (List (Int × Int × Int)) :=
+  if s = "-" then some [] else
+    (s.splitOn ";").mapM fun p =>
+      match (p.splitOn ":").mapM (·.toInt?) with
+      | some [r, g, b] => some (r, g, b)
+      | _ => none
+
 def showRow (c : Row) : String := showList [c.r, c.g, c.b, c.t, c.a]
 
 def parseSets? (s : String) : Option (List (Nat × Nat)) :=
@@ -144,6 +153,15 @@ def handle : List String → String
             | .ok a => "ok " ++ hexOf file ++ " labels=" ++ showList a.labels ++ " ctab=[" ++
                 ",".intercalate (a.ctab.map showRow) ++ "] names=" ++ showHexList a.names
       | _, _, _, _, _, _ => "bad-op"
+  | ["annot2", fill, has5, labels, rows, names, rgb, fill2] =>
+      match parseBool? fill, parseBool? has5, parseIntList? labels, parseRows? rows, parseHexList? ";" names,
+            parseRgb? rgb, parseBool? fill2 with
+      | some fill, some has5, some labels, some rows, some names, some rgb, some fill2 =>
+          match annotChain labels rows has5 names fill rgb fill2 with
+          | .error e => errStr e
+          | .ok (a1, f2, a2) => "ok " ++ hexOf f2 ++ " l1=" ++ showList a1.labels ++ " labels=" ++ showList a2.labels ++
+              " ctab=[" ++ ",".intercalate (a2.ctab.map showRow) ++ "] names=" ++ showHexList a2.names
+      | _, _, _, _, _, _, _ => "bad-op"
   | ["mgh", shape, dt, data, aff, ras, setz, sets] =>
       match parseNatList? shape, parseNatList? data, parseNatList? aff, parseHex? ras, parseOptNatList? setz,
             parseSets? sets with
